@@ -12,7 +12,9 @@ From GT Require Import Base.UTree Spec.Obs Model.Reroot Model.Outgroup Spec.Unro
      Proofs.OutgroupBase Proofs.OutgroupCut Proofs.OutgroupKeep Proofs.OutgroupLCA Proofs.OutgroupClade
      Proofs.OutgroupMain Proofs.OutgroupSide Proofs.OutgroupRemove Proofs.OutgroupRemoveMain
      Proofs.OutgroupMidpoint Proofs.OutgroupMidDist Proofs.OutgroupMlp Proofs.OutgroupHalf
-     Proofs.OutgroupHalfMain Proofs.OutgroupWitness.
+     Proofs.OutgroupHalfMain Proofs.OutgroupSplits Proofs.OutgroupSplitsMain Proofs.OutgroupMidErr
+     Proofs.OutgroupTies Proofs.OutgroupWitness Proofs.OracleC05 Proofs.OutgroupRemoveSplits.
+From GT Require Import Base.Sexp Judge.Common.
 Import ListNotations.
 Local Close Scope Q_scope.
 
@@ -513,3 +515,210 @@ Example C05_example_outgroup :
   (exists t', reroot_midpoint og_w1 = Ok t' /\ halfway og_w1 t').
 Proof. exact outgroup_example. Qed.
 Print Assumptions C05_example_outgroup.
+
+(** * (f) split-level statements for the two rootings, in the format of C05_reroot_usplits:
+    looking up any bipartition [k] in [usplits] (same-bipartition branches merged, so the two
+    root branches count as one branch whose length is the sum) gives the same split: same length,
+    same support, same tip flag, up to Qeq.  [good_len]: the length is absent or >= 0. *)
+
+(** the general step: a new root in the middle of a branch, then re-rooting on it *)
+Theorem C05_cut_and_root_usplits :
+  forall t2 pp k cf eP eC P e ch t4,
+    wf t2 = true -> 2 <= degree t2 -> NoDup (leaves t2) ->
+    node_at t2 pp = Some P -> nth_error (uslots P) k = Some (Some (e, ch)) ->
+    (merge_len (elen eP) (elen eC) == elen e)%Q -> (qmax (esup eP) (esup eC) == esup e)%Q ->
+    cut_and_root t2 pp k cf eP eC = Some t4 ->
+    forall key, orel split_qeq (find_split key (usplits t4)) (find_split key (usplits t2)).
+Proof. exact cut_and_root_usplits. Qed.
+Print Assumptions C05_cut_and_root_usplits.
+
+(** rooting on an outgroup without removal: every split of the unrooted tree is kept with its
+    length (the cut branch = its two halves merged) and its support (the cut branch included) *)
+Theorem C05_outgroup_usplits :
+  forall strict t names t',
+    wf t = true -> 2 <= degree t -> (rooted t = true -> root_has_inner_child t = true) ->
+    NoDup (leaves t) ->
+    (forall x, In x (bsplits (unroot t)) -> good_len (fst (fst x))) ->
+    reroot_outgroup false strict t names = Ok t' ->
+    forall k, orel split_qeq (find_split k (usplits t')) (find_split k (usplits (unroot t))).
+Proof. exact outgroup_usplits. Qed.
+Print Assumptions C05_outgroup_usplits.
+
+(** the same against the input tree itself (a rooted input is first unrooted, which recomputes
+    the support of the merged root branch: lengths only, as in C05_unroot_usplits) *)
+Theorem C05_outgroup_usplits_input :
+  forall strict t names t',
+    wf t = true -> 2 <= degree t -> (rooted t = true -> root_has_inner_child t = true) ->
+    NoDup (leaves t) ->
+    (forall x, In x (bsplits (unroot t)) -> good_len (fst (fst x))) ->
+    reroot_outgroup false strict t names = Ok t' ->
+    forall k, orel split_weq (find_split k (usplits t')) (find_split k (usplits t)).
+Proof. exact outgroup_usplits_input. Qed.
+Print Assumptions C05_outgroup_usplits_input.
+
+(** midpoint rooting (every branch with a length >= 0) *)
+Theorem C05_midpoint_usplits :
+  forall t t',
+    wf t = true -> 2 <= degree t -> (rooted t = true -> root_has_inner_child t = true) ->
+    NoDup (leaves t) ->
+    (forall x, In x (bsplits (unroot t)) -> (0 <= elen (fst (fst x)))%Q) ->
+    reroot_midpoint t = Ok t' ->
+    forall k, orel split_qeq (find_split k (usplits t')) (find_split k (usplits (unroot t))).
+Proof. exact midpoint_usplits. Qed.
+Print Assumptions C05_midpoint_usplits.
+
+Theorem C05_midpoint_usplits_input :
+  forall t t',
+    wf t = true -> 2 <= degree t -> (rooted t = true -> root_has_inner_child t = true) ->
+    NoDup (leaves t) ->
+    (forall x, In x (bsplits (unroot t)) -> (0 <= elen (fst (fst x)))%Q) ->
+    reroot_midpoint t = Ok t' ->
+    forall k, orel split_weq (find_split k (usplits t')) (find_split k (usplits t)).
+Proof. exact midpoint_usplits_input. Qed.
+Print Assumptions C05_midpoint_usplits_input.
+
+(** * (g) the two refusals of midpoint rooting *)
+Theorem C05_midpoint_missing_length :
+  forall t,
+    wf t = true -> 2 <= degree t -> (rooted t = true -> root_has_inner_child t = true) ->
+    (exists x, In x (bsplits (unroot t)) /\ is_nil_len x = true) ->
+    reroot_midpoint t = Err "some branches have no length"%string.
+Proof. exact reroot_midpoint_missing_length. Qed.
+Print Assumptions C05_midpoint_missing_length.
+
+Theorem C05_midpoint_all_zero :
+  forall t,
+    wf t = true -> 2 <= degree t -> (rooted t = true -> root_has_inner_child t = true) ->
+    (forall x, In x (bsplits (unroot t)) -> (elen (fst (fst x)) == 0)%Q) ->
+    reroot_midpoint t = Err "cannot reroot at midpoint: all tip to tip paths have a null length"%string.
+Proof. exact reroot_midpoint_all_zero. Qed.
+Print Assumptions C05_midpoint_all_zero.
+
+(** * (h) ties between longest paths: the first in scan order wins *)
+
+(** MaxLengthPath takes the FIRST neighbour (smallest index in neigh[]) with the largest value
+    (branch length + longest path behind it) *)
+Theorem C05_mlp_first :
+  forall n c sl j p l,
+    mlp (UNode n c sl) = Some (j :: p, l) ->
+    slot_value mlp sl j l /\
+    (exists e ch l', nth_error sl j = Some (Some (e, ch)) /\ mlp ch = Some (p, l')) /\
+    (forall j' v, j' < j -> slot_value mlp sl j' v -> (v < l)%Q) /\
+    (forall j' v, j < j' -> slot_value mlp sl j' v -> (v <= l)%Q).
+Proof. exact mlp_first. Qed.
+Print Assumptions C05_mlp_first.
+
+(** RerootMidPoint starts from the FIRST tip, in the order of Tree.Tips(), whose longest path
+    has the largest length ([ecc t1 pn l]: the longest path from the tip [pn] has length [l]) *)
+Theorem C05_midpoint_first_tip :
+  forall t t',
+    reroot_midpoint t = Ok t' ->
+    let t1 := unroot t in
+    exists d1 q lf d2 v pA cur ea,
+      tip_paths t1 = d1 ++ (q, lf) :: d2 /\
+      view_from t1 q = Some v /\ mlp_tip v = Some (Some pA, cur) /\
+      (forall pn l, In pn d1 -> ecc t1 pn l -> (l < cur)%Q) /\
+      (forall pn l, In pn d2 -> ecc t1 pn l -> (l <= cur)%Q) /\
+      edge_at (tv_tree v) (tv_slot v) = Some ea /\ mp_result v pA cur ea = Some t'.
+Proof. exact reroot_midpoint_first_tip. Qed.
+Print Assumptions C05_midpoint_first_tip.
+
+(** * (i) the oracle accepts the model: the boolean check [same_tree_obs] of Judge/Common.v (the
+    whole oracle of the operations reroot / unroot / rotate / sort, and the generic part of the
+    oracle of outgroup / midpoint: well-formed, same sorted tips, [splits_eq same_len] on
+    [usplits], [matrix_eqb] on [dist_matrix len0]) finds nothing to complain about in the results
+    of the model, for all well-formed trees with distinct tip names *)
+
+(** the keys of [usplits] are pairwise distinct *)
+Theorem C05_usplits_keys_nodup : forall t, NoDup (map sside (usplits t)).
+Proof. exact usplits_keys_nodup. Qed.
+Print Assumptions C05_usplits_keys_nodup.
+
+(** from the Prop-level statements (leaves, split look-ups, distance multiset) to the boolean *)
+Theorem C05_same_tree_obs_accepts :
+  forall t g,
+    wf g = true -> NoDup (leaves t) -> Permutation (leaves g) (leaves t) ->
+    (forall k, orel split_weq (find_split k (usplits g)) (find_split k (usplits t))) ->
+    dists_equiv (pairdists len0 g) (pairdists len0 t) ->
+    same_tree_obs t g = None.
+Proof. exact same_tree_obs_accepts. Qed.
+Print Assumptions C05_same_tree_obs_accepts.
+
+Theorem C05_oracle_accepts_reroot :
+  forall t i t',
+    wf t = true -> 2 <= degree t -> NoDup (leaves t) -> reroot t i = Ok t' ->
+    same_tree_obs t t' = None.
+Proof. exact oracle_accepts_reroot. Qed.
+Print Assumptions C05_oracle_accepts_reroot.
+
+Theorem C05_oracle_accepts_unroot :
+  forall t,
+    wf t = true -> (rooted t = true -> root_has_inner_child t = true) -> NoDup (leaves t) ->
+    same_tree_obs t (unroot t) = None.
+Proof. exact oracle_accepts_unroot. Qed.
+Print Assumptions C05_oracle_accepts_unroot.
+
+Theorem C05_oracle_accepts_rotate :
+  forall t cs, wf t = true -> NoDup (leaves t) -> same_tree_obs t (fst (rotate_all t cs)) = None.
+Proof. exact oracle_accepts_rotate. Qed.
+Print Assumptions C05_oracle_accepts_rotate.
+
+Theorem C05_oracle_accepts_sort :
+  forall t, wf t = true -> NoDup (leaves t) -> same_tree_obs t (sort_by_tips t) = None.
+Proof. exact oracle_accepts_sort. Qed.
+Print Assumptions C05_oracle_accepts_sort.
+
+Theorem C05_oracle_accepts_outgroup :
+  forall strict t names t',
+    wf t = true -> 2 <= degree t -> (rooted t = true -> root_has_inner_child t = true) ->
+    NoDup (leaves t) ->
+    (forall x, In x (bsplits (unroot t)) -> good_len (fst (fst x))) ->
+    reroot_outgroup false strict t names = Ok t' ->
+    same_tree_obs t t' = None.
+Proof. exact oracle_accepts_outgroup. Qed.
+Print Assumptions C05_oracle_accepts_outgroup.
+
+(** midpoint: also the path lengths with absent-as-0 weights, every branch having a length >= 0 *)
+Theorem C05_midpoint_len0 :
+  forall t t',
+    wf t = true -> 2 <= degree t -> (rooted t = true -> root_has_inner_child t = true) ->
+    NoDup (leaves t) ->
+    (forall x, In x (bsplits (unroot t)) -> (0 <= elen (fst (fst x)))%Q) ->
+    reroot_midpoint t = Ok t' ->
+    dists_equiv (pairdists len0 t') (pairdists len0 t).
+Proof. exact midpoint_len0. Qed.
+Print Assumptions C05_midpoint_len0.
+
+Theorem C05_oracle_accepts_midpoint :
+  forall t t',
+    wf t = true -> 2 <= degree t -> (rooted t = true -> root_has_inner_child t = true) ->
+    NoDup (leaves t) ->
+    (forall x, In x (bsplits (unroot t)) -> (0 <= elen (fst (fst x)))%Q) ->
+    reroot_midpoint t = Ok t' ->
+    same_tree_obs t t' = None.
+Proof. exact oracle_accepts_midpoint. Qed.
+Print Assumptions C05_oracle_accepts_midpoint.
+
+(** * (j) rooting on an outgroup with removal, branch by branch: the splits of the result are the
+    restrictions of the splits of the (unrooted) input.
+    [a_side L x S]: S is one of the two sides of the branch x of a tree with leaves L;
+    [minus Rm S S']: S' is S without the removed leaves Rm (S ≡ S' or S ≡ S' ++ Rm);
+    [restr_of L L' Rm x z]: same branch data and tip flag, and a side of z (in the result, leaves
+    L') is a side of x (in the input, leaves L) minus Rm;
+    [drop_ok L Rm d]: one side of the branch d lies inside the removed leaves.
+    [Rm] is exactly the outgroup in strict mode or when it is one side of a split
+    (C05_outgroup_remove). *)
+Theorem C05_outgroup_remove_splits :
+  forall strict t names t',
+    wf t = true -> 2 <= degree t -> (rooted t = true -> root_has_inner_child t = true) ->
+    NoDup (leaves t) ->
+    reroot_outgroup true strict t names = Ok t' ->
+    let G := group (unroot t) names in
+    let L1 := leaves (unroot t) in
+    exists Rm dropped kept kept',
+      Permutation L1 (leaves t' ++ Rm) /\ incl G Rm /\
+      Permutation (bsplits (unroot t)) (dropped ++ kept) /\ Permutation (bsplits t') kept' /\
+      Forall (drop_ok L1 Rm) dropped /\
+      Forall2 (restr_of L1 (leaves t') Rm) kept kept'.
+Proof. exact reroot_outgroup_remove_splits. Qed.
+Print Assumptions C05_outgroup_remove_splits.
